@@ -734,6 +734,10 @@ func (g *FnGen) applyContract(ci *calleeInfo, args []Term, fvs map[string]SVal, 
 	}
 	g.callRes[fmt.Sprintf("%s#%d", ci.key, callOrd)] = rs
 	g.callReach[fmt.Sprintf("%s#%d", ci.key, callOrd)] = reach
+	if g.callTag == nil {
+		g.callTag = map[string]int{}
+	}
+	g.callTag[fmt.Sprintf("%s#%d", ci.key, callOrd)] = g.curTag
 	// intermediate assertions ("cuts") of the enclosing function's contract placed after this call
 	for _, cl := range g.clauses("cut") {
 		if cl.Key != ci.key || cl.Loop != callOrd {
@@ -1100,19 +1104,35 @@ func (g *FnGen) knownRefsFor(key string) []string {
 	return out
 }
 
-// inScope: the value is defined in a block that dominates the block being generated (its declaration is then
-// part of every query sliced for this block).
+// inScope: the value is defined in a block whose lines are part of every query sliced for the block being
+// generated (the block itself or one of its ancestors).
 func (g *FnGen) inScope(v ssa.Value) bool {
 	in, ok := v.(ssa.Instruction)
 	if !ok || in.Block() == nil {
 		return true
 	}
+	return g.tagInScope(in.Block().Index)
+}
+
+// tagInScope: lines emitted under the given tag are part of the queries sliced for the block being generated.
+func (g *FnGen) tagInScope(tag int) bool {
 	cur := g.curTag
-	if xb, ok := g.xtagBlock[cur]; ok {
-		cur = xb
+	if tag == -1 || tag == cur || cur == -1 {
+		return true
 	}
-	if cur < 0 || cur >= len(g.fn.Blocks) {
-		return cur == -1 || in.Block().Index == 0
+	if tag <= -2 {
+		return false // the exceptional continuation of another call
 	}
-	return in.Block().Dominates(g.fn.Blocks[cur])
+	base := cur
+	if base <= -2 {
+		xb, ok := g.xtagBlock[base]
+		if !ok {
+			return true
+		}
+		base = xb
+	}
+	if base < 0 || base >= len(g.fn.Blocks) {
+		return true
+	}
+	return tag == base || g.ancestors(base)[tag]
 }
